@@ -55,6 +55,10 @@ def compactMem (s : St PReg Float) : St PReg Float :=
 structure Monitor where
   /-- shadow call stack: return addresses pushed by `jal` -/
   shadow : List Nat := []
+  /-- entry line of the callee of each pending call -/
+  callee : List Nat := []
+  /-- expected `sp(return) - sp(call)` per callee entry line (calling convention: arguments popped, result pushed) -/
+  expect : List (Nat × Int) := []
   /-- sp recorded at each call -/
   spAtCall : List Float := []
   violations : List String := []
@@ -74,7 +78,7 @@ partial def runMon (env : Env Float) (P : List (Instr PReg Float)) (budget : Nat
   let m' := match i? with
     | some i =>
       match i.kind with
-      | .jal => { m with shadow := (s.pc + 1) :: m.shadow, spAtCall := s.regs 16 :: m.spAtCall,
+      | .jal => { m with shadow := (s.pc + 1) :: m.shadow, spAtCall := s.regs 16 :: m.spAtCall, callee := s'.pc :: m.callee,
                          maxDepth := max m.maxDepth (m.shadow.length + 1) }
       | .jmp =>
         -- `j ra` is a return
@@ -85,8 +89,13 @@ partial def runMon (env : Env Float) (P : List (Instr PReg Float)) (budget : Nat
              let v1 := if s'.pc != top && !s'.halted then
                  [s!"return at line {s.pc} goes to {s'.pc}, but the call being served returns to {top}"] else []
              let d := s.regs 16 - sp0
-             let v2 := if d != 0.0 && d != 1.0 then [s!"return at line {s.pc}: sp differs from its value at the call by {d}"] else []
-             { m with shadow := rest, spAtCall := sprest, violations := m.violations ++ v1 ++ v2 }
+             let want : Option Int := (m.callee.head?.bind (fun c => (m.expect.find? (fun (q : Nat × Int) => q.1 == c)).map (fun (q : Nat × Int) => q.2)))
+             let okd := match want with
+               | some w => d == Float.ofInt w
+               | none => d == 0.0 || d == 1.0
+             let v2 := if !okd then [s!"return at line {s.pc}: sp differs from its value at the call by {d}" ++
+                 (match want with | some w => s!" (the calling convention requires {w})" | none => "")] else []
+             { m with shadow := rest, spAtCall := sprest, callee := m.callee.drop 1, violations := m.violations ++ v1 ++ v2 }
            | _, _ => { m with violations := m.violations ++ [s!"return at line {s.pc} without a call being served"] }
          | _ => m)
       | _ => m
@@ -111,7 +120,12 @@ def runIc10 (j : Json) : Except String Json := do
   match parseProgram text with
   | .error e => pure (Json.mkObj [("parse_error", Json.str e)])
   | .ok pp =>
-    let (s, m, n) := runMon (envF seed pool) pp.prog steps initSt {} 0
+    let expect : List (Nat × Int) := match j.getObjVal? "expect" with
+      | .ok ej => ((ej.getArr?).toOption.getD #[]).toList.filterMap (fun p => match p.getArr? with
+          | .ok a => (match (a[0]!).getNat?, (a[1]!).getInt? with | .ok x, .ok y => some (x, y) | _, _ => none)
+          | .error _ => none)
+      | .error _ => []
+    let (s, m, n) := runMon (envF seed pool) pp.prog steps initSt { expect := expect } 0
     pure (Json.mkObj [
       ("trace", Json.arr (s.trace.reverse.map jEff).toArray),
       ("halted", Json.bool s.halted), ("pc", Json.num (JsonNumber.fromNat s.pc)), ("steps", Json.num (JsonNumber.fromNat n)),
@@ -218,7 +232,12 @@ def equiv (j : Json) : Except String Json := do
   match parseProgram text with
   | .error e => pure (Json.mkObj [("verdict", Json.str "parse-error"), ("detail", Json.str e)])
   | .ok pp =>
-    let (s, m, n) := runMon env pp.prog steps initSt {} 0
+    let expect : List (Nat × Int) := match j.getObjVal? "expect" with
+      | .ok ej => ((ej.getArr?).toOption.getD #[]).toList.filterMap (fun p => match p.getArr? with
+          | .ok a => (match (a[0]!).getNat?, (a[1]!).getInt? with | .ok x, .ok y => some (x, y) | _, _ => none)
+          | .error _ => none)
+      | .error _ => []
+    let (s, m, n) := runMon env pp.prog steps initSt { expect := expect } 0
     let ts := st.trace.reverse
     let ti := s.trace.reverse
     let cp := commonPrefix ts ti
